@@ -45,6 +45,10 @@ func (r QuantityReporter) Flush() error {
 	for k, v := range r.accumulator {
 		sortable = append(sortable, SortTuple{k, v})
 	}
+	// order by name first so that the stable sort by value leaves ties in name order
+	sort.Slice(sortable, func(i, j int) bool {
+		return sortable[i].name < sortable[j].name
+	})
 
 	if r.descending {
 		sort.SliceStable(sortable, func(i, j int) bool {
